@@ -1047,7 +1047,7 @@ func (c14) Gen(rt *rapid.T, thorough bool) any {
 	if rapid.IntRange(0, 4).Draw(rt, "dirfault") == 0 {
 		s.FaultDir = []string{rapid.SampledFrom([]string{"readdir", "info", "remove", "readdir-once", "readdir-once", "open-once", "open-once"}).Draw(rt, "dirfault_kind")}
 	}
-	if rapid.IntRange(0, 40).Draw(rt, "many_files") == 0 {
+	if rapid.IntRange(0, map[bool]int{false: 90, true: 40}[thorough]).Draw(rt, "many_files") == 0 {
 		// a directory with hundreds of own files whose ages follow their names - except one old-named
 		// file that was modified a minute ago: every file is judged by its own modification time
 		s.Pop, s.MaxAge, s.Interval, s.FaultDir = nil, 72, rapid.SampledFrom([]string{"1s", "2s"}).Draw(rt, "many_interval"), nil
@@ -1077,8 +1077,8 @@ func (c14) Gen(rt *rapid.T, thorough bool) any {
 	if s.Separate && !s.ViaLogger && rapid.Bool().Draw(rt, "max_age2") {
 		s.MaxAge2 = rapid.SampledFrom([]int{1, 24, 720, 10000}).Draw(rt, "max_age2_v")
 	}
-	s.Touch = rapid.IntRange(0, 3).Draw(rt, "touch") == 0
-	if s.Touch && rapid.Bool().Draw(rt, "touch_preset") && len(s.Pop) > 0 {
+	s.Touch = rapid.IntRange(0, 2).Draw(rt, "touch") == 0
+	if s.Touch && rapid.IntRange(0, 3).Draw(rt, "touch_preset") != 0 && len(s.Pop) > 0 {
 		// the case the touch is about: an own file a little younger than MaxAge, touched while the
 		// clock moves on by whole intervals, several cleanups before and after
 		s.Interval = "h"
